@@ -35,6 +35,7 @@ func main() {
 		dumpTo    = flag.Uint("dump-all-to", 0, "... to this height")
 		name      = flag.String("name", "", "identifier suffix (default <scenario>_<seed>)")
 		list      = flag.Bool("list", false, "list the scenarios and exit")
+		format    = flag.String("format", "delta", "plain | named | delta (see emit)")
 	)
 	flag.Parse()
 	if *list {
@@ -59,7 +60,11 @@ func main() {
 		os.Stdout = devnull
 	}
 
-	st, err := run(*scenario, *seed, ident, *out, *work, *dumpEvery, uint32(*dumpFrom), uint32(*dumpTo))
+	if *format != "plain" && *format != "named" && *format != "delta" {
+		fmt.Fprintln(os.Stderr, "chainrun: -format must be plain, named or delta")
+		os.Exit(2)
+	}
+	st, err := run(*scenario, *seed, ident, *out, *work, *dumpEvery, uint32(*dumpFrom), uint32(*dumpTo), *format)
 	if err != nil {
 		fmt.Fprintln(os.Stderr, "chainrun:", err)
 		os.Exit(1)
@@ -103,7 +108,7 @@ type Stats struct {
 	Balances     map[string]int64 `json:"-"`
 }
 
-func run(scenario string, seed int64, ident, out, work string, dumpEvery int, dumpFrom, dumpTo uint32) (*Stats, error) {
+func run(scenario string, seed int64, ident, out, work string, dumpEvery int, dumpFrom, dumpTo uint32, format string) (*Stats, error) {
 	t0 := time.Now()
 	sc, err := scen.Build(scenario, seed)
 	if err != nil {
@@ -230,7 +235,7 @@ func run(scenario string, seed int64, ident, out, work string, dumpEvery int, du
 	if err := os.MkdirAll(filepath.Dir(out), 0777); err != nil {
 		return nil, err
 	}
-	size, err := emit(out, ident, sc, blocks, obs)
+	size, err := emit(out, ident, sc, blocks, obs, format)
 	if err != nil {
 		return nil, err
 	}
